@@ -19,6 +19,7 @@
 #include <stdint.h>
 #include <sched.h>
 #include <time.h>
+#include <sys/wait.h>
 #include "vtrace.h"
 
 static int tracking; static const char *tmpdir, *prefix;
@@ -234,6 +235,16 @@ static int acquire (const char *k, int want_ok, Obj *o) {
 	else if (!strcmp (k, "sem")) { PSemaphore *s = p_semaphore_new (want_ok ? name : NULL, 2, P_SEM_ACCESS_CREATE, &err); if (s) { p_semaphore_acquire (s, NULL); p_semaphore_release (s, NULL); } o->a = s; ok = s != NULL; }
 	else if (!strcmp (k, "sem2")) { PSemaphore *s = p_semaphore_new (name, 1, P_SEM_ACCESS_OPEN, NULL), *t = p_semaphore_new (name, 5, P_SEM_ACCESS_OPEN, NULL), *u = p_semaphore_new (name, 3, P_SEM_ACCESS_CREATE, NULL); o->a = s; o->b = t; o->c = u; ok = s && t && u; }
 	else if (!strcmp (k, "shm")) { PShm *s = p_shm_new (name, want_ok ? 5000 : 0, P_SHM_ACCESS_READWRITE, &err); if (s) { p_shm_lock (s, NULL); ((char *) p_shm_get_address (s))[0] = 1; p_shm_unlock (s, NULL); } o->a = s; ok = s != NULL; }
+	else if (!strcmp (k, "shm_adopt")) {        /* the creator of a segment is gone without freeing it (a process that exited); another process opens the name,
+							 * takes ownership and frees: both IPC names of the object (segment and lock semaphore) are gone afterwards */
+		pid_t c; int st = 0; PShm *s; int sv = tracking, svl = in_lib;
+		fflush (vt_fp);
+		c = fork ();
+		if (c == 0) { tracking = 0; in_lib = 0; s = p_shm_new (name, 3000, P_SHM_ACCESS_READWRITE, NULL); _exit (s ? 0 : 1); }
+		in_lib = 0; waitpid (c, &st, 0); in_lib = svl; (void) sv;      /* (tracking stays on in this process: a detached thread of an earlier kind may release its handle meanwhile) */
+		s = p_shm_new (name, 0, P_SHM_ACCESS_READWRITE, &err);
+		o->a = s; ok = s != NULL && WIFEXITED (st) && WEXITSTATUS (st) == 0;
+	}
 	else if (!strcmp (k, "shm_same")) { PShm *s = p_shm_new (name, 9000, P_SHM_ACCESS_READWRITE, NULL), *t = p_shm_new (name, 9000, P_SHM_ACCESS_READONLY, NULL); o->a = s; o->b = t; ok = s && t; }
 	else if (!strcmp (k, "shm_smaller")) { PShm *s = p_shm_new (name, 9000, P_SHM_ACCESS_READWRITE, NULL), *t = p_shm_new (name, 100, P_SHM_ACCESS_READWRITE, NULL); o->a = s; o->b = t; ok = s && t; }
 	else if (!strcmp (k, "shmbuf")) { PShmBuffer *b = p_shm_buffer_new (name, want_ok ? 1000 : 0, &err), *c = NULL; char buf[8]; if (b) { c = p_shm_buffer_new (name, 1000, NULL); p_shm_buffer_write (b, (ppointer) "abc", 3, NULL); if (c) p_shm_buffer_read (c, buf, 8, NULL); } o->a = b; o->b = c; ok = b != NULL; }
@@ -292,7 +303,7 @@ static void release (Obj *o) {
 	else if (!strcmp (k, "tcp") || !strcmp (k, "tcp_timeout") || !strcmp (k, "sock_intr") || !strcmp (k, "sock_close_intr") || !strcmp (k, "from_fd") || !strcmp (k, "accept_fail") || !strcmp (k, "bind_used") || !strcmp (k, "udp")) { if (o->c) { p_socket_close (o->c, NULL); p_socket_free (o->c); } if (o->b) p_socket_free (o->b); if (o->a) { p_socket_shutdown (o->a, TRUE, TRUE, NULL); p_socket_free (o->a); } }
 	else if (!strcmp (k, "sem")) { p_semaphore_take_ownership (o->a); p_semaphore_free (o->a); }
 	else if (!strcmp (k, "sem2")) { if (o->a) p_semaphore_free (o->a); if (o->b) p_semaphore_free (o->b); if (o->c) { p_semaphore_take_ownership (o->c); p_semaphore_free (o->c); } }
-	else if (!strcmp (k, "shm") || !strcmp (k, "shm_close_intr")) { p_shm_take_ownership (o->a); p_shm_free (o->a); }
+	else if (!strcmp (k, "shm") || !strcmp (k, "shm_close_intr") || !strcmp (k, "shm_adopt")) { p_shm_take_ownership (o->a); p_shm_free (o->a); }
 	else if (!strcmp (k, "shm_same") || !strcmp (k, "shm_smaller")) { if (o->b) p_shm_free (o->b); if (o->a) p_shm_free (o->a); }
 	else if (!strcmp (k, "shmbuf_small")) { if (o->b) p_shm_buffer_free (o->b); if (o->a) { p_shm_take_ownership (o->a); p_shm_free (o->a); } }
 	else if (!strcmp (k, "shmbuf")) { if (o->b) p_shm_buffer_free (o->b); if (o->a) { p_shm_buffer_take_ownership (o->a); p_shm_buffer_free (o->a); } }
